@@ -95,7 +95,6 @@ def _parse_attribute_block(
     lines: list[str], atom_attrs: dict[int, dict[str, Any]]
 ) -> None:
     reset_chg_and_rad = False
-    reset_mass = False
 
     additional_attrs: dict = {}
     for line in lines:
@@ -118,7 +117,6 @@ def _parse_attribute_block(
                 MASS,
                 additional_attrs,
             )
-            reset_mass = True
         elif line == "M  END":
             break  # else of this for loop is not entered
     else:
@@ -128,9 +126,9 @@ def _parse_attribute_block(
         # CHG or RAD lines supersede all charge and radical values from the atom block.
         _clear_atom_attribute(CHG, atom_attrs)
         _clear_atom_attribute(RAD, atom_attrs)
-    if reset_mass:
-        # ISO lines supersede all isotope values from the atom block.
-        _clear_atom_attribute(MASS, atom_attrs)
+    # ISO lines supersede the isotope values from the atom block, i.e. the mass
+    # difference field "dd", which is ignored anyway. The masses of D and T atoms
+    # are part of their symbol and are kept (unless an ISO entry names the atom).
 
     _merge_atom_attributes_and_additional_attributes(atom_attrs, additional_attrs)
 
